@@ -290,10 +290,30 @@ class Mat:
         return "[" + "; ".join(", ".join(map(repr, r)) for r in self.rows) + "]"
 
 
+def polar_normalise(p: "Poly") -> "Poly":
+    """|z| * e^{+i arg z} = z  and  |z| * e^{-i arg z} = conj z  for the complex parameters (the polar spelling of a parameter
+    is the parameter); other combinations of |z| and arg z (e.g. e^{i arg(z)/2}) stay as they are"""
+    out: Dict[Mono, G] = {}
+    for (r2, sy, tr, ex, w), c in p.t.items():
+        sy_d, ex_d = dict(sy), dict(ex)
+        for z in COMPLEX_SYMS:
+            a, m = f"arg({z})", f"|{z}|"
+            while ex_d.get(a) in (Fraction(1), Fraction(-1)) and sy_d.get(m, 0) >= 1:
+                name = z if ex_d[a] == 1 else z + "*"
+                del ex_d[a]
+                sy_d[m] -= 1
+                if not sy_d[m]:
+                    del sy_d[m]
+                sy_d[name] = sy_d.get(name, 0) + 1
+        mono = (r2, tuple(sorted(sy_d.items())), tr, tuple(sorted(ex_d.items())), w)
+        out[mono] = g_add(out.get(mono, (Fraction(0), Fraction(0))), c)
+    return Poly(out)
+
+
 class Expm:
     """matrix exponential of an operator polynomial"""
     def __init__(self, arg: Poly):
-        self.arg = arg
+        self.arg = polar_normalise(arg)
 
     def __eq__(self, o):
         return isinstance(o, Expm) and self.arg == o.arg
@@ -468,6 +488,15 @@ class Folder:
             raise Unfoldable("sqrt")
         if n in ("cos", "sin") and args:
             return trig(n, self.fold(args[0]))
+        if n in ("abs", "absolute", "angle") and len(args) == 1:
+            v = self.fold(args[0])
+            if isinstance(v, Poly) and len(v.t) == 1:
+                (mono, c), = v.t.items()
+                if c == (Fraction(1), Fraction(0)) and mono[0] == 0 and not mono[2] and not mono[3] and not mono[4] and len(mono[1]) == 1 and mono[1][0][1] == 1 \
+                        and mono[1][0][0] in COMPLEX_SYMS:
+                    z = mono[1][0][0]
+                    return Poly.sym(f"|{z}|" if n != "angle" else f"arg({z})")
+            raise Unfoldable(f"{n} of something that is not a complex parameter")
         if n in ("mod", "remainder", "fmod") and len(args) == 2:
             a, b = self.fold(args[0]), self.fold(args[1])
             if isinstance(a, Poly) and isinstance(b, Poly):
